@@ -84,6 +84,9 @@ type vpSession struct {
 	// password from SetUserInfo) at the FIRST ProcessAuthenticateMessage of a session and keeps it
 	keyCached      bool
 	keyUser, keyPw string
+	// a session that never generated a challenge verifies against the EMPTY server challenge (go-ntlm
+	// does not check that a negotiate was processed)
+	challenged bool
 }
 
 var vpSessions []*vpSession
@@ -113,6 +116,7 @@ func (s *vpSession) ProcessNegotiateMessage(*ntlm.NegotiateMessage) error {
 	return nil
 }
 func (s *vpSession) GenerateChallengeMessage() (*ntlm.ChallengeMessage, error) {
+	s.challenged = true
 	return &ntlm.ChallengeMessage{Signature: []byte("NTLMSSP\x00"), MessageType: 2, TargetName: &ntlm.PayloadStruct{},
 		ServerChallenge: make([]byte, 8), TargetInfo: &ntlm.AvPairs{}, Version: &ntlm.VersionStruct{}}, nil
 }
@@ -150,7 +154,16 @@ func (s *vpSession) ProcessAuthenticateMessage(am *ntlm.AuthenticateMessage) err
 	}
 	// branch-free: the proof matches iff it was made under the cached key's user name and password
 	sameUser := vpOr(vpAnd(vpProofUserSel == 0, s.keyUser == vpMsgUser), vpOr(vpAnd(vpProofUserSel == 1, s.keyUser == "ab"), vpAnd(vpProofUserSel == 2, s.keyUser == "ef")))
-	if vpAnd(vpAnd(s.negotiated, sameUser), vpAnd(vpPwId(s.keyPw) == vpProofPwId, s.id == vpClientSess)) {
+	// the client computed its proof against the challenge of server session vpClientSess, or against the
+	// empty challenge (vpClientSess == -1)
+	rightChallenge := vpOr(vpAnd(s.challenged, s.id == vpClientSess), vpAnd(!s.challenged, vpClientSess == -1))
+	ok := vpAnd(sameUser, vpAnd(vpPwId(s.keyPw) == vpProofPwId, rightChallenge))
+	// go-ntlm can panic while it derives the session keys, i.e. after it verified the response and with
+	// the response key already cached (e.g. KEY_EXCH with an empty encrypted session key)
+	if ok && vpBool("library-panics-deriving-keys-"+vpItoa(vpReqNo)) {
+		panic("vp: go-ntlm: slice bounds out of range (key exchange)")
+	}
+	if ok {
 		return nil
 	}
 	return errors.New("Could not authenticate")
